@@ -50,9 +50,10 @@ inline std::string case_text(const std::string &prop, const std::string &kind, c
   if (prop == "C04" && kind == "names") { o += "choices " + hex(choices) + "\n"; return o; }
   Bytes w = make_message(kind, choices, prop == "C03", prop == "C18" ? 4 : 1);
   unsigned flags = 0;
-  if (prop == "C02") flags = (a & 1) ? 0 : (a >> 1) % 64; else if (prop == "C04") flags = (a % 5 == 0) ? b % 64 : 0;
+  if (prop == "C02" || prop == "C14") flags = (a & 1) ? 0 : (a >> 1) % 64; else if (prop == "C04") flags = (a % 5 == 0) ? b % 64 : 0;
   o += "flags " + std::to_string(flags) + "\n";
   if (prop == "C02") { o += "off " + std::to_string((a * 256u + b) % 70000u) + "\ncap " + std::to_string(b % 9) + "\n"; if (a % 37 == 0) o += "pad " + std::to_string(65530u + b * 17u) + "\n"; }
+  if (prop == "C14") { o += "off " + std::to_string((a * 256u + b) % 70000u) + "\ncap " + std::to_string(b % 9) + "\nconsumed " + std::string(getenv("SIM_C14_ALL") && *getenv("SIM_C14_ALL") == '1' ? "1" : (a % 4 == 0 ? "1" : "0")) + "\nchoices " + hex(choices.substr(0, 24)) + "\n"; }
   if (prop == "C18") o += "cap " + std::to_string(b % 7) + "\n";
   o += "msg " + hex(w) + "\n";
   return o;
@@ -69,6 +70,7 @@ inline bool run_wire_case(const std::string &text, std::string &sig, std::string
     else ok = check_c04(w, c.flags, o);
   } else if (c.prop == "C02") { C02Params p; p.flags = c.flags; p.off = c.off; p.cap = c.cap; ok = check_c02(w, p, o); }
   else if (c.prop == "C18") { ok = check_c18(w, c.cap, o); }
+  else if (c.prop == "C14") { C02Params p; p.flags = c.flags; p.off = c.off; p.cap = c.cap; std::vector<uint64_t> picks; for (size_t i = 0; i + 1 < c.choices.size() && picks.size() < 12; i += 2) picks.push_back(((uint64_t)(unsigned char)c.choices[i] << 8) | (unsigned char)c.choices[i + 1]); ok = check_c14_wire(w, p, c.consumed == 1, picks, o); }
   else if (c.prop == "C03") {
     if (c.kind == "build" || c.kind == "bigbuild") { Chooser ch((const unsigned char *)c.choices.data(), c.choices.size()); GenCfg cfg; cfg.hostname_owners = true; cfg.api_buildable = true; cfg.allow_big = c.kind == "bigbuild"; ref::Msg m = gen_msg(ch, cfg); ok = check_c03_build(m, o); }
     else if (c.kind == "tcp") {
